@@ -220,7 +220,7 @@ def build_family(rng, tables, per_setting, n_variants, flat_tries=4):
         cid += 1
         for k in range(n_variants):
             pl = variant_plan(k)
-            v, desc = LF.represent(lay, rng, perm=pl["perm"], vacuum=rng.uniform(0.6, 2.0), supercell=pl["supercell"], rotate=pl["rotate"],
+            v, desc = LF.represent(lay, rng, perm=pl["perm"], vacuum=vacuum_factor(lay, rng, k), supercell=pl["supercell"], rotate=pl["rotate"],
                                    flip=pl["flip"], translate=True, permute=True, wrap_inplane=pl["wrap_inplane"])
             if not LF.perpendicular(v, 1e-7):
                 disc["variant_not_perpendicular"] += 1
@@ -231,6 +231,25 @@ def build_family(rng, tables, per_setting, n_variants, flat_tries=4):
             cases.append({"id": cid, "base": base, "layer": v, "desc": desc, "min_2d_thickness": pl["ms"], "as3d": k % 6 == 0, "stream": "family"})
             cid += 1
     return cases, bases, disc
+
+
+def vacuum_factor(lay, rng, k):
+    """amount of vacuum of a re-presentation: the stated range 0.6-2.0 of the given length, and -- every other variant -- an
+    absolute target on either side of the lengths that matter to the pipeline (the padded length max(5, 3 t) and the in-plane
+    lattice vectors), never less than the atomic extent plus 3 A"""
+    f = rng.uniform(0.6, 2.0)
+    if k % 2 == 0:
+        return f
+    import numpy as np
+    cell = np.array(lay["cell"], dtype=float)
+    ax = [i for i in range(3) if not lay["pbc"][i]][0]
+    L = float(np.linalg.norm(cell[ax]))
+    t = float(lay.get("thickness", 0.0))
+    inpl = [float(np.linalg.norm(cell[i])) for i in range(3) if i != ax]
+    pad = max(5.0, 3 * t)
+    target = rng.choice([0.8 * pad, 1.3 * pad, 0.8 * min(inpl), 0.8 * max(inpl), 1.25 * max(inpl), 2.5 * max(inpl)])
+    target = max(target, t + 3.0)
+    return target / L
 
 
 def malformed_stream(rng, bases, n, cid0):
